@@ -71,6 +71,34 @@ def _back_calls(f, o, depth=0):
     return out
 
 
+def _full_callees(f, o):
+    """resolved full callee names (they carry the closure path for Fn::call) behind operand o"""
+    if o is None or is_const(o):
+        return set()
+    out, seen, work = set(), set(), [op_place(o)["l"]]
+    defs = f.defs()
+    while work:
+        l = work.pop()
+        if l in seen:
+            continue
+        seen.add(l)
+        for bi, si, s in defs.get(l, []):
+            if si == "term":
+                out.add((s.get("rfn") or s.get("fn") or ""))
+                for a in s.get("args", []):
+                    if not is_const(a) and op_place(a) is not None:
+                        work.append(op_place(a)["l"])
+            else:
+                rv = s["rv"]
+                for k in ("o", "a", "b"):
+                    if isinstance(rv.get(k), dict) and not is_const(rv[k]) and op_place(rv[k]) is not None:
+                        work.append(op_place(rv[k])["l"])
+                for x in rv.get("ops", []) or []:
+                    if not is_const(x) and op_place(x) is not None:
+                        work.append(op_place(x)["l"])
+    return out
+
+
 def _apply_sites(prog, f, closures, memo):
     """blocks of f where a spaces() token is applied: directly, or by calling an own closure that applies one."""
     if f.path in memo:
@@ -81,7 +109,11 @@ def _apply_sites(prog, f, closures, memo):
         c = callee(t)
         if c.endswith("update_leading_trivia") or c.endswith("update_trailing_trivia"):
             args = t.get("args", [])
-            if len(args) >= 2 and any(x.endswith("TokenType::spaces") for x in _back_calls(f, args[1])):
+            back = _back_calls(f, args[1]) if len(args) >= 2 else set()
+            # the token may be built by an own closure (`let padding = || vec![Token::new(TokenType::spaces(1))]`)
+            via = [g for g in closures if any(g.path in x for x in back | _full_callees(f, args[1] if len(args) >= 2 else None))
+                   and any(callee(tt).endswith("TokenType::spaces") for _b, tt in g.calls())]
+            if any(x.endswith("TokenType::spaces") for x in back) or via:
                 res.append((bi, t, c.split("::")[-1]))
         else:
             full = (t.get("rfn") or t.get("fn") or "") + " " + c
@@ -103,7 +135,7 @@ def rule_padline(ctx, prop):
         pads = _apply_sites(prog, f, closures, {})
         inds = [(bi, t) for bi, t in f.calls() if callee(t).endswith("create_indent_trivia")]
         rep.floor("padding applications in format_index", len(pads), 2, cfg)
-        rep.floor("create_indent_trivia calls in format_index", len(inds), 2, cfg)
+        rep.floor("create_indent_trivia calls in format_index", len(inds), 1, cfg)
         for pb, pt, what in pads:
             bad = None
             for ib, it in inds:
